@@ -205,10 +205,25 @@ def Err.name : Err → String
   | .noSuchUpload => "NoSuchUpload"
   | .panic => "PANIC"
 
-/-- environment of a `FileSystem` value: the CWD of the process and `self.root` -/
+/-- what `check_upload_exists` (fs.rs, since 41e1cf2) sees in the record `.upload-<id>.json` of an upload: a record that is no
+    JSON object (`null` or `"ak"`, written by an older version) binds the upload to nothing; an object binds it to the strings
+    its members `bucket` and `key` hold (`none`: the member is missing or no string) -/
+inductive UploadRec where
+  | old
+  | obj (bucket key : Option Bytes)
+  deriving DecidableEq, Repr
+
+/-- `field("bucket") != Some(bucket) || field("key") != Some(key)` ⇒ `NoSuchUpload`; byte-wise comparison -/
+def UploadRec.allows : UploadRec → Bytes → Bytes → Bool
+  | .old, _, _ => true
+  | .obj rb rk, b, k => decide (rb = some b) && decide (rk = some k)
+
+/-- environment of a `FileSystem` value: the CWD of the process, `self.root`, and what the record of the upload with a given
+    (canonical) id holds when one exists (file-system state the may-touch table depends on) -/
 structure Env where
   cwd : Bytes
   root : Bytes
+  uploadRec : Bytes → UploadRec := fun _ => .old
 
 /-- `resolve_abs_path` (`?` turns the io error into `InternalError`) -/
 def resolveAbsPath (e : Env) (s : Bytes) : Except Err Bytes :=
@@ -407,9 +422,12 @@ def fileWrite (tmp dest parentOfDest : Bytes) : List Touch :=
 def parentPath (p : Bytes) : Bytes :=
   render ((components p).dropLast.map osStr) (isAbsolute p)
 
-/-- `verify_upload_id`, then (only when it answered `true`) `k` -/
-def verifyUpload (e : Env) (uuid : Bytes) (sofar : List Touch) (k : List Touch → Plan) : Plan :=
-  withPath (uploadInfoPath e uuid) sofar fun info => k (sofar ++ [rd info])
+/-- `check_upload_exists` / `verify_upload_id`: the record is probed and read; a record bound to another bucket or key ends
+    the operation with `NoSuchUpload` (41e1cf2), nothing else having been touched; otherwise `k` -/
+def verifyUpload (e : Env) (uuid bucket key : Bytes) (sofar : List Touch) (k : List Touch → Plan) : Plan :=
+  withPath (uploadInfoPath e uuid) sofar fun info =>
+    if (e.uploadRec uuid).allows bucket key then k (sofar ++ [rd info])
+    else .fail (sofar ++ [rd info]) .noSuchUpload
 
 /-- `delete_objects`: every key is resolved before anything is touched; then the bucket directory is probed (0f31b61:
     `NoSuchBucket`); then each path in turn is probed and, when something is there, removed (c55c267: a key that does not
@@ -509,21 +527,21 @@ def plan (e : Env) (enc : Bytes → Bytes) : Op → Plan
     let t1 := t0 ++ [cr info, wr info]
     if hasMeta then withPath (metadataPath e enc b k (some uuid)) t1 fun m => .ok (t1 ++ [cr m, wr m])
     else .ok t1
-  | .uploadPart _ _ uploadId part hasBody counter =>
+  | .uploadPart b k uploadId part hasBody counter =>
     if part < 1 ∨ part > 10000 then .fail [] .invalidArgument
     else if !hasBody then .fail [] .incompleteBody
     else match parseUuid uploadId with
       | none => .fail [] .noSuchUpload           -- 4609ab3: an id that is no UUID names no upload
       | some u =>
-        verifyUpload e u [] fun t1 =>
+        verifyUpload e u b k [] fun t1 =>
         withPath (uploadPartPath e u part) t1 fun pp =>
         withPath (tmpPath e counter) t1 fun tmp => .ok (t1 ++ fileWrite tmp pp (parentPath pp))
-  | .uploadPartCopy ap sb sk _ _ uploadId part counter =>
+  | .uploadPartCopy ap sb sk b k uploadId part counter =>
     if part < 1 ∨ part > 10000 then .fail [] .invalidArgument else
     match parseUuid uploadId with
     | none => .fail [] .noSuchUpload
     | some u =>
-      verifyUpload e u [] fun t1 =>
+      verifyUpload e u b k [] fun t1 =>
       if ap then .fail t1 .notImplemented else
       withPath (getObjectPath e sb sk) t1 fun src =>
       withPath (uploadPartPath e u part) t1 fun pp =>
@@ -531,13 +549,13 @@ def plan (e : Env) (enc : Bytes → Bytes) : Op → Plan
       withPath (getBucketPath e sb) (t1 ++ [rd src]) fun sbp =>
       let t2 := t1 ++ [rd src] ++ [rd sbp]
       withPath (tmpPath e counter) t2 fun tmp => .ok (t2 ++ fileWrite tmp pp (parentPath pp))
-  | .listParts _ _ uploadId =>
+  | .listParts b k uploadId =>
     -- 4609ab3: the id is parsed and the upload record probed (`NoSuchUpload`) before the root is read
     match parseUuid uploadId with
     | none => .fail [] .noSuchUpload
     | some u =>
-      withPath (uploadInfoPath e u) [] fun info =>
-      .ok [rd info, ⟨.list, .path e.root⟩, ⟨.read, .childrenPrefixed e.root (uploadPartPrefix u)⟩]
+      verifyUpload e u b k [] fun t1 =>
+      .ok (t1 ++ [⟨.list, .path e.root⟩, ⟨.read, .childrenPrefixed e.root (uploadPartPrefix u)⟩])
   | .completeMultipartUpload b k uploadId parts counter =>
     -- 0fcb858: a request without a part list, or with an empty one, is refused before anything is looked at
     match parts with
@@ -547,7 +565,7 @@ def plan (e : Env) (enc : Bytes → Bytes) : Op → Plan
       match parseUuid uploadId with
       | none => .fail [] .noSuchUpload           -- 4609ab3: an id that is no UUID names no upload
       | some u =>
-        verifyUpload e u [] fun t1 =>
+        verifyUpload e u b k [] fun t1 =>
         withPath (getObjectPath e b k) t1 fun p =>
         -- 0fcb858: the order of the numbers is checked before any part file is probed
         if outOfOrder parts then .fail t1 .invalidPartOrder else
@@ -572,7 +590,7 @@ def plan (e : Env) (enc : Bytes → Bytes) : Op → Plan
     match parseUuid uploadId with
     | none => .fail [] .noSuchUpload
     | some u =>
-      verifyUpload e u [] fun t1 =>
+      verifyUpload e u b k [] fun t1 =>
       withPath (metadataPath e enc b k (some u)) t1 fun um =>
       withPath (uploadInfoPath e u) (t1 ++ [rm um]) fun info =>
       .ok (t1 ++ [rm um, ⟨.list, .path e.root⟩, ⟨.delete, .childrenPrefixed e.root (uploadPartPrefix u)⟩, rm info])
